@@ -700,7 +700,7 @@ Section StepShift.
       + apply add_log_shifted_ok.
       + cbv zeta.
         set (okd := (value_range 2 b 64 =? 2) || (value_range 2 b 64 =? 4) || (value_range 2 b 64 =? 8) || (value_range 2 b 64 =? 16)).
-        change (s_lineno s') with (s_lineno s).
+        change (s_lineno s') with (s_lineno s). change (s_ja s') with (s_ja s).
         match goal with |- context [add_log s ?m] => set (msg := m) end.
         set (s1 := if okd then s else add_log s msg).
         assert (E1 : (if okd then s' else add_log s' msg) = shift_state L n h s1)
